@@ -369,6 +369,12 @@ class ProviderDispatcher(BaseProvider):
                     # value, it is None. The type is taken from the class
                     # because it cannot be inferred from a None value.
                     cl_prop = creation_class.properties[pn]
+                    if cl_prop.qualifiers.get('key', False):
+                        # Key properties cannot be modified. Setting the
+                        # class default would also change the keybindings
+                        # of the instance path, i.e. which instance is
+                        # modified.
+                        continue
                     modified_instance[pn] = CIMProperty(
                         pn, cl_prop.value, type=cl_prop.type,
                         is_array=cl_prop.is_array,
